@@ -6,8 +6,11 @@
 (* the MTU() the REAL top swarm reported, the class of the error returned by *)
 (* Tell / Ask ("nil", "mtu" = IsErrMTUExceeded, "ctx", "other"), how many    *)
 (* payloads the other endpoint's callback saw (nd), whether all of them      *)
-(* equalled what was sent (eq), and whether a non-MTU error on an oversize    *)
-(* payload repeated on three fresh stacks (other3).                           *)
+(* equalled what was sent (eq; for an Ask also the answer the asker got),     *)
+(* whether one of them was a proper part of it (part), whether a non-MTU error *)
+(* on an oversize payload repeated on three fresh stacks (other3), whether an  *)
+(* accepted payload stayed undelivered on a second fresh stack while a control *)
+(* payload sent right after it arrived (lostc).                                *)
 (* The verdict uses Stack!ObsViol with the REAL MTU(): it does not depend on  *)
 (* the model's arithmetic.  DRIFT: the model's MTU differs from the real one, *)
 (* an accepted in-range payload was not delivered, an in-range payload        *)
@@ -24,10 +27,10 @@ ToSet(s) == {s[i] : i \in 1..Len(s)}
 
 TraceInit == l = 1 /\ base = "" /\ innerMtu = 0 /\ layers = <<>>
 
-CaseViol(c) == ObsViol(c.size, c.mtu, c.err, c.nd, c.eq, c.other3)
+CaseViol(c) == ObsViol(c.size, c.mtu, c.err, c.nd, c.eq, c.other3, c.part, c.lostc)
 CaseDrift(ev, c) ==
     (IF c.mtu # ev.modelmtu THEN {"mtu"} ELSE {})
-    \cup (IF c.size <= c.mtu /\ c.err = "nil" /\ c.nd = 0 THEN {"lost"} ELSE {})
+    \cup (IF c.size <= c.mtu /\ c.err = "nil" /\ c.nd = 0 /\ ~c.lostc THEN {"lost"} ELSE {})
     \cup (IF c.size <= c.mtu /\ c.err \in {"ctx", "other"} THEN {"failed"} ELSE {})
     \cup (IF c.size <= c.mtu /\ c.nd > 1 THEN {"duplicated"} ELSE {})
 
@@ -37,8 +40,8 @@ TraceNext ==
     /\ UNCHANGED <<base, innerMtu, layers>>
     /\ LET ev == Log[l]
            vs == {[op |-> v, kind |-> ev.cases[i].op, size |-> ev.cases[i].size, mtu |-> ev.cases[i].mtu] :
-                     i \in 1..Len(ev.cases), v \in {"UndersizeRejected", "Corrupted", "OversizeAccepted",
-                                                     "OversizeDelivered", "OversizeWrongError"}}
+                     i \in 1..Len(ev.cases), v \in {"UndersizeRejected", "Corrupted", "DeliveredInPart", "AcceptedNotDelivered",
+                                                     "OversizeAccepted", "OversizeDelivered", "OversizeWrongError"}}
            bad == {r \in vs : \E i \in 1..Len(ev.cases) :
                                  /\ ev.cases[i].op = r.kind /\ ev.cases[i].size = r.size
                                  /\ r.op \in CaseViol(ev.cases[i])}
